@@ -155,6 +155,19 @@ struct Model {
     races_left: u32,
     race_done: u32,
     limit_constrained: bool,
+    /// round-robin reference: cursor and what the accept loop can know about each worker
+    rr_cursor: usize,
+    rr_bits: Vec<Tri>,
+    rr_checked: u32,
+}
+
+/// the accept loop's knowledge of a worker's availability, as far as the harness can tell
+#[derive(Clone, Copy, Debug, PartialEq, Eq)]
+enum Tri {
+    Yes,
+    No,
+    /// released a connection at its limit; the notification may or may not have been processed
+    Maybe,
 }
 
 impl Model {
@@ -181,11 +194,37 @@ impl Model {
                         continue;
                     }
                     let sat_before: Vec<bool> = (0..self.workers.len()).map(|i| self.load(i) >= self.limit).collect();
+                    // round-robin reference model (only without faults and without the finish-before-count race)
+                    if !self.any_kill && self.race_done == 0 && self.races_left == 0 {
+                        let nw = self.workers.len();
+                        let mut allowed = vec![];
+                        for j in 0..nw {
+                            let idx = (self.rr_cursor + j) % nw;
+                            match self.rr_bits[idx] {
+                                Tri::Yes => {
+                                    allowed.push(idx);
+                                    break;
+                                }
+                                Tri::Maybe => allowed.push(idx),
+                                Tri::No => {}
+                            }
+                        }
+                        if !allowed.is_empty() {
+                            self.rr_checked += 1;
+                            if !allowed.contains(&w) {
+                                let msg = format!("dispatch #{} went to worker {} but round-robin from position {} over the available workers allows only {:?} (availability as the accept loop can know it: {:?}, loads {:?}, limit {})",
+                                    self.dispatches.len(), w, self.rr_cursor, allowed, self.rr_bits, (0..nw).map(|i| self.load(i)).collect::<Vec<_>>(), self.limit);
+                                self.flag(Prop::C04, "C04/not-round-robin", msg);
+                            }
+                        }
+                        self.rr_cursor = (w + 1) % nw;
+                    }
                     self.workers[w].queued.push_back(id);
                     self.conns[id].state = CState::Queued;
                     let load = self.load(w);
                     if load >= self.limit {
                         self.workers[w].ever_saturated = true;
+                        self.rr_bits[w] = Tri::No;
                     }
                     let ever_sat_after: Vec<bool> = self.workers.iter().map(|s| s.ever_saturated).collect();
                     self.dispatches.push(DispatchRec { worker: w, sat_before, ever_sat_after });
@@ -248,8 +287,13 @@ impl Model {
             return;
         }
         let k = k % n;
-        let c = if k < slot.live.len() { slot.live.remove(k) } else { slot.zombies.remove(k - slot.live.len()) };
+        let from_live = k < slot.live.len();
+        let c = if from_live { slot.live.remove(k) } else { slot.zombies.remove(k - slot.live.len()) };
         let id = c.id;
+        // the release that takes a worker from its limit to limit-1 sends a notification
+        if from_live && slot.queued.len() + slot.live.len() + 1 == self.limit {
+            self.rr_bits[w] = Tri::Maybe;
+        }
         drop(c); // drops the real guard: Counter::dec + possibly WorkerAvailable
         self.conns[id].state = CState::Served;
     }
@@ -362,6 +406,9 @@ impl Engine {
             races_left: 0,
             race_done: 0,
             limit_constrained: false,
+            rr_cursor: 0,
+            rr_bits: vec![Tri::Yes; c.workers],
+            rr_checked: 0,
         };
         let n = c.listeners.len();
         Ok(Engine { stepped, wq, model: Rc::new(RefCell::new(model)), addrs, fds, backoff: vec![None; n], armed_fatal: vec![false; n], now_ms: 0, steps: 0, labels: vec![], aborted: None })
@@ -466,6 +513,14 @@ impl Engine {
             for s in m.workers.iter_mut() {
                 if s.alive {
                     s.in_rotation = true;
+                }
+            }
+        }
+        // a step that ran and left the waker queue empty has processed every availability notification
+        if matches!(step, Step::Ran { .. }) && self.wq.is_empty() {
+            for w in 0..m.workers.len() {
+                if m.rr_bits[w] == Tri::Maybe {
+                    m.rr_bits[w] = if m.load(w) < m.limit { Tri::Yes } else { Tri::No };
                 }
             }
         }
@@ -866,6 +921,7 @@ async fn run_async(c: &Case, prop: Prop) -> CaseResult {
     }
     obs.label_if(aborted.is_some(), "aborted");
     obs.label_if(m.race_done > 0, "race-done");
+    obs.label_if(m.rr_checked as usize > m.workers.len() && m.workers.len() >= 2, "rr-checked>W");
     obs.label_if(m.limit_constrained, "limit-constrained");
     obs.label_if(m.workers.iter().any(|s| s.ever_saturated), "saturated");
     obs.label_if(m.dispatches.len() > m.workers.len(), "dispatches>W");
